@@ -91,6 +91,13 @@ def gen_cases(tier, seed):
         cases.append({"kind": "primitive_explicit", "crystal": {"name": ["tric3", "rutile", "afm_cr", "hcp"][rep % 4], "order": "random", "order_seed": int(rng.integers(1000)),
                                                                  "int_shift": True, "edge": bool(rng.integers(2))},
                       "mseed": int(rng.integers(10 ** 6))})
+    # symmetry tolerance x supercell size: the tolerance is a length, it must not decide whether an exactly tileable input is accepted
+    for i in range(10 if tier == "quick" else 60):
+        name, pm = [("sc", "P"), ("bcc", "I"), ("rocksalt", "F"), ("fcc", "F"), ("cscl", "P"), ("hcp", "P")][i % 6]
+        n = int(rng.integers(2, 6))
+        S = [np.diag([n, n, n]).tolist(), np.diag([n, n - 1, n + 1]).tolist(), [[n, 1, 0], [0, n, 0], [0, 0, n]], [[-n, n, n], [n, -n, n], [n, n, -n]]][int(rng.integers(4))]
+        cases.append({"kind": "tolerance", "crystal": {"name": name, "order": ["asis", "random"][int(rng.integers(2))], "order_seed": int(rng.integers(1000))}, "pm": pm, "S": S,
+                      "symprec": float([1e-5, 1e-3, 1e-2, 5e-2, 1e-7][int(rng.integers(5))]), "_cost": 20})
     cases.append({"kind": "reject"})
     return cases
 
@@ -228,6 +235,39 @@ def run_case(c):
                 obs["primitive_N"].append(N)
             if N > 1:
                 keys.append("prim|%s|%s|%s|%s" % (c["crystal"]["name"], np.array(S).tolist(), np.round(pmat, 6).tolist(), c["crystal"].get("order_seed")))
+    elif c["kind"] == "tolerance":
+        from phonopy import Phonopy
+        from phonopy.structure.cells import get_primitive, get_supercell
+
+        cd = crystals.make(**c["crystal"])
+        unit = crystals.to_atoms(cd)
+        S = np.array(c["S"])
+        if len(unit) * abs(int(round(np.linalg.det(S)))) > 260:
+            S = np.diag([3, 3, 3])
+        sp = c["symprec"]
+        pmu = np.array(get_primitive_matrix(c["pm"]), float)
+        nprim = int(round(abs(np.linalg.det(S)) / abs(np.linalg.det(pmu))))
+        feat = dict(symprec=sp, matrix=S.tolist(), pm=c["pm"], n_primitive_cells=nprim, symprec_times_cells=float(sp * nprim))
+        for route in ("functions", "Phonopy"):
+            try:
+                if route == "functions":
+                    sc = get_supercell(unit, S, symprec=sp)
+                    pmat = np.linalg.inv(np.array(S, float)) @ pmu
+                    pr = get_primitive(sc, pmat, symprec=sp)
+                else:
+                    ph_ = Phonopy(unit, supercell_matrix=S, primitive_matrix=c["pm"] if c["pm"] != "P" else None, symprec=sp, log_level=0)
+                    sc, pr = ph_.supercell, ph_.primitive
+                    pmat = np.linalg.inv(np.array(S, float)) @ pmu
+            except Exception as e:
+                bad("tileable_refused", "exactly tileable input refused at symprec=%g with %d primitive cells in the supercell (%s): %r" % (sp, nprim, route, e), route=route, **feat)
+                continue
+            obs["tolerance_built"] = obs.get("tolerance_built", 0) + 1
+            for kind, msg in K.supercell_tiling_problems(sc, unit, S)[:1]:
+                bad("tiling_supercell_" + kind, msg, route=route, **feat)
+            for kind, msg in K.primitive_tiling_problems(pr, sc, pmat)[:1]:
+                bad("tiling_primitive_" + kind, msg, route=route, **feat)
+        obs["tolerance_symprec_%g" % sp] = 1
+        keys.append("tol|%s|%s|%s|%g" % (c["crystal"]["name"], S.tolist(), c["pm"], sp))
     elif c["kind"] == "reject":
         unit = crystals.to_atoms(crystals.make("tric3"))
         fccu = crystals.to_atoms(crystals.make("fcc"))
